@@ -162,7 +162,7 @@ TCompiled ==
 TCutset ==
   /\ Ev("cutset")
   /\ LET cs == {SP(Rec[l].nodes[i]) : i \in DOMAIN Rec[l].nodes} IN
-     devs' = Add(devs, (IF Isolated /\ ~(I.long_arcs /\ cfg.dd = "pooled") /\ I.n <= 6 THEN CutsetTags(I, HT, inp, res, cs) ELSE {})
+     devs' = Add(devs, (IF Isolated  THEN CutsetTags(I, HT, inp, res, cs) ELSE {})
                        \cup Tag(\E c \in cs : ~ExactSubProblem(I, c), "C08 node-not-exact"))
   /\ UNCHANGED <<I, HT, cfg, S, cur, compiledCur, inp, res, baseRet, prevRet, primalMax, held, skipOK, store, ever, pendW>>
 
